@@ -216,6 +216,16 @@ def _features(m, spec, desc, ctx, rng, feat):
         ids = rng.permutation(ns)[:int(rng.integers(1, ns + 1))]
         if q == 0:
             ids = np.sort(ids)
+        if q == 3 and rows is None and desc['seed'][2] % 2 == 0:
+            # a spike named more than once (a full store is simply indexed with the request): short ascending requests in
+            # which as many ids repeat as are skipped, and unordered ones
+            ids = rng.integers(0, ns, size=int(rng.integers(2, 7)))
+            if desc['seed'][2] % 4 == 0:
+                a0 = int(rng.integers(0, max(1, ns - 4)))
+                ids = np.array([[a0, a0, a0 + 2], [a0, a0 + 1, a0 + 1, a0 + 3, a0 + 4], [a0, a0 + 2, a0 + 2]][desc['seed'][2] // 4 % 3])
+                ids = ids[ids < ns]
+            else:
+                ids = np.sort(ids) if desc['seed'][2] % 8 == 2 else ids
         k = int(rng.integers(1, min(4, nc) + 1))
         base = rng.permutation(nc)[:k]
         perms = list(itertools.permutations(base.tolist()))
@@ -351,12 +361,22 @@ def _pca(case, ctx):
         try:
             factor = [1.0, 0.5][int(rng.integers(0, 2))]
             # (a small store: requests then mix spikes with and without an extracted waveform)
+            if case['seed'][2] % 4 in (1, 2):
+                # history: an earlier, smaller extraction on the same model (other spikes, one channel); the store is then rebuilt
+                np.random.seed(case['seed'][2])
+                call(m.save_spikes_subset_waveforms, max_n_spikes_per_template=3, max_n_channels=1, sample2unit=1.)
+                ctx.cell('pca', 'extracted_twice')
             rs = call(m.save_spikes_subset_waveforms, max_n_spikes_per_template=[40, 12, 8][case['seed'][2] % 3], max_n_channels=2, sample2unit=factor)
             if not rs.ok or m.spike_waveforms is None:
                 ctx.violation('raised', desc, 'building the waveform store failed: %r' % (rs.exc,), dict(f, exc=rs.exc_name), tb=rs.tb)
                 return
-            sid = np.asarray(m.spike_waveforms.spike_ids)
-            sch = np.asarray(m.spike_waveforms.spike_channels)
+            # (what the extraction wrote is the store; the model's view of it must be the same)
+            import os
+            sid = np.load(os.path.join(d, '_phy_spikes_subset.spikes.npy'))
+            sch = np.load(os.path.join(d, '_phy_spikes_subset.channels.npy'))
+            if not (np.array_equal(sid, np.asarray(m.spike_waveforms.spike_ids)) and np.array_equal(sch, np.asarray(m.spike_waveforms.spike_channels))):
+                ctx.violation('pca_mismatch', desc, 'after the extraction the model lists other stored spikes / channels than the files it just wrote', f)
+                return
             A = spec.traces_truth()
             ns = spec.n_spikes
             ids = np.sort(rng.permutation(ns)[:int(rng.integers(ns // 2, ns + 1))])
